@@ -132,17 +132,24 @@ class Session:
                 tag = "malformed-path-accepted" if must_reject else "aborted-call-swallowed"
                 raise Violation(f"C09/{tag}", f"{kind} {op_brief(op)} returned normally")
             # prefix envelope: the graph equals the model after some prefix of the effects
-            m = self.model.copy()
-            k = 0
-            while True:
-                if m.signature() == real:
-                    self.model = m
-                    self.res.probes[f"rejected_prefix_{min(k, 2)}"] += 1
-                    return
-                if k == len(eff):
-                    break
-                m.apply_effect(eff[k])
-                k += 1
+            # (for add_path also without the origin: the statement fixes no moment for the attachment,
+            # an implementation may attach the origin first -- as the pinned tree does -- or after the
+            # whole path went in, in which case a rejected call leaves its leading hops without it)
+            orders = [eff]
+            if kind == "add_path" and any(e[0] == "origin" for e in eff):
+                orders.append([e for e in eff if e[0] != "origin"])
+            for j, seq in enumerate(orders):
+                m = self.model.copy()
+                k = 0
+                while True:
+                    if m.signature() == real:
+                        self.model = m
+                        self.res.probes[f"rejected_prefix_{min(k, 2)}" + ("_origin_deferred" if j else "")] += 1
+                        return
+                    if k == len(seq):
+                        break
+                    m.apply_effect(seq[k])
+                    k += 1
             raise Violation(
                 f"C09/bad-partial-{kind}", f"graph after rejected/aborted {op_brief(op)} matches no prefix"
             )
